@@ -61,6 +61,7 @@ func (w *world) stakingTxs() []txT {
 		{Name: "transfer(a0->a1,2^64-1)", Signer: a0, Method: staking.MethodTransfer, Body: staking.Transfer{To: A(1), Amount: qq(math.MaxUint64)}},
 		{Name: "transfer(a0->a1,2^255)", Signer: a0, Method: staking.MethodTransfer, Body: staking.Transfer{To: A(1), Amount: qBig(255)}},
 		{Name: "transfer(a0->a1,0)", Signer: a0, Method: staking.MethodTransfer, Body: staking.Transfer{To: A(1), Amount: qq(0)}},
+		{Name: "transfer(a0->a2 empty,7)", Signer: a0, Method: staking.MethodTransfer, Body: staking.Transfer{To: A(2), Amount: qq(7)}, FeeAmt: 1},
 		{Name: "transfer(a2 empty->a0,5,fee1)", Signer: a2, Method: staking.MethodTransfer, Body: staking.Transfer{To: A(0), Amount: qq(5)}, FeeAmt: 1},
 		{Name: "burn(a1,7,fee1)", Signer: a1, Method: staking.MethodBurn, Body: staking.Burn{Amount: qq(7)}, FeeAmt: 1},
 		{Name: "burn(a1,all)", Signer: a1, Method: staking.MethodBurn, Body: staking.Burn{Amount: qq(2000)}},
@@ -72,6 +73,8 @@ func (w *world) stakingTxs() []txT {
 		{Name: "reclaim(a0<-e0,100sh)", Signer: a0, Method: staking.MethodReclaimEscrow, Body: staking.ReclaimEscrow{Account: E(0), Shares: qq(100)}, FeeAmt: 1},
 		{Name: "reclaim(a0<-e0,500sh=all)", Signer: a0, Method: staking.MethodReclaimEscrow, Body: staking.ReclaimEscrow{Account: E(0), Shares: qq(500)}},
 		{Name: "reclaim(e1<-e1,1000sh)", Signer: e1, Method: staking.MethodReclaimEscrow, Body: staking.ReclaimEscrow{Account: E(1), Shares: qq(1000)}},
+		{Name: "reclaim(e1<-e1,333sh)", Signer: e1, Method: staking.MethodReclaimEscrow, Body: staking.ReclaimEscrow{Account: E(1), Shares: qq(333)}},
+		{Name: "reclaim(e2<-e2,2900sh)", Signer: e2, Method: staking.MethodReclaimEscrow, Body: staking.ReclaimEscrow{Account: E(2), Shares: qq(2900)}},
 		{Name: "reclaim(a1<-e0,1sh none)", Signer: a1, Method: staking.MethodReclaimEscrow, Body: staking.ReclaimEscrow{Account: E(0), Shares: qq(1)}},
 		{Name: "allow(a0->a1,+30)", Signer: a0, Method: staking.MethodAllow, Body: staking.Allow{Beneficiary: A(1), AmountChange: qq(30)}},
 		{Name: "allow(a0->a1,-50)", Signer: a0, Method: staking.MethodAllow, Body: staking.Allow{Beneficiary: A(1), Negative: true, AmountChange: qq(50)}},
@@ -130,6 +133,7 @@ func (w *world) alphabet(profile string) []letter {
 		ls = append(ls, letter{Name: "2tx: transfer+burn", Txs: []txT{txs[0], txs[10]}})
 		ls = append(ls, letter{Name: "2tx same signer: transfer,transfer", Txs: []txT{txs[0], txs[1]}})
 		ls = append(ls, envLetters(txs[0])[:7]...)
+		ls = append(ls, letter{Name: "evidence=dupvote:1", Evidence: "dupvote:1"}, letter{Name: "evidence=dupvote:2", Evidence: "dupvote:2"}, letter{Name: "evidence=lca:0", Evidence: "lca:0"})
 	case "halt":
 		pick("transfer(a0->a1,10,fee2)", "transfer(a1->a2,2000=all)", "transfer(a0->a1,2^255)", "burn(a1,all)", "reclaim(a0<-e0,500sh=all)", "reclaim(e1<-e1,1000sh)", "gov-submit-upgrade(e0)", "gov-vote(e2,#1,yes)", "gov-vote(e1,#1,no)", "escrow(a1->e1,333)")
 		ls = append(ls, envLetters(txs[0])...)
